@@ -417,7 +417,50 @@ def case_shared(case, col=None):
         logging.disable(logging.NOTSET)
 
 
+def case_samename(case, col=None):
+    """Context objects come and go: the same name given to another object, an anonymous context passed as an object, a context that gains a
+    redefinition between two activations.  Inside each activation the registry shows that object's redefinition; outside, none."""
+    import pint
+
+    logging.disable(logging.CRITICAL)
+    try:
+        ureg = new_registry()
+        base = observe(ureg)
+        if col is not None:
+            col.case(("sn", str(case)), True, sample=case, cls="context_objects")
+        live = None
+        for step in case["steps"]:
+            kind, c = step[0], Fraction(step[1])
+            if kind in ("named", "anonymous"):
+                if live is not None and kind == "named":
+                    ureg.remove_context("same")
+                ctx = pint.Context("same" if kind == "named" else None)
+                ctx.redefine(f"foo = {c.numerator}/{c.denominator} * xm")
+                if kind == "named":
+                    ureg.add_context(ctx)
+                    live = ctx
+                act = "same" if kind == "named" else ctx
+            else:  # 'extend': the live named context gets another redefinition of the same unit
+                if live is None:
+                    continue
+                live.redefine(f"foo = {c.numerator}/{c.denominator} * xm")
+                act = "same"
+            with ureg.context(act):
+                o = observe(ureg)
+                for k, want in (("foo->xm", c), ("bar->xm", 5 * c), ("bar->xm:to_root", 5 * c), ("bar->xm:base", 5 * c), ("kilafoo->xm", 1000 * c)):
+                    if o[k] != want:
+                        raise Violation(f"context_object_state_mixed_up:{kind}:{k.split(':')[-1] if ':' in k else 'conversion'}", f"steps {case['steps']}: inside the {kind} context with foo = {c} xm, {k} = {o[k]}, expected {want}")
+            o = observe(ureg)
+            for k in ("foo->xm", "bar->xm", "bar->xm:to_root", "bar->xm:base", "kilafoo->xm", "active"):
+                if o[k] != base[k]:
+                    raise Violation("residue_after_leaving_all_contexts:context_objects", f"steps {case['steps']}: after leaving, {k} = {o[k]}, initially {base[k]}")
+    finally:
+        logging.disable(logging.NOTSET)
+
+
 def run_shared(task, tier, seed, col):
+    sstrat = st.lists(st.tuples(st.sampled_from(["named", "named", "anonymous", "extend"]), st.sampled_from([4, 10, 6, 7])), min_size=2, max_size=5).map(lambda st_: {"steps": [list(x) for x in st_]})
+    hyp_search(col, sstrat, lambda c: case_samename(c, col), max_examples=60 if tier == "quick" else 1000, seed=seed * 197)
     strat = st.lists(st.tuples(st.integers(0, 1), st.sampled_from([0, 2, 7, 0])), min_size=1, max_size=6).map(lambda ops: {"ops": [list(o) for o in ops]})
     hyp_search(col, strat, lambda c: case_shared(c, col), max_examples=80 if tier == "quick" else 1500, seed=seed * 199)
 
@@ -427,6 +470,8 @@ def run_task(task, tier, seed, col):
 
 
 def replay(sub, case):
+    if sub == "shared" and "steps" in case:
+        return case_samename(case)
     if sub == "shared":
         return case_shared(case)
     return case_seq(case)
